@@ -184,12 +184,18 @@ def source_init_mark(run, twin=None):
     holder = {}
 
     class SrcText(object):
-        """the source text: only splitlines() is observed"""
+        """the source text: only its division into lines (split at the line feed / splitlines) is observed"""
         def __init__(self, lines):
             self._lines = lines
 
         def splitlines(self):
             return list(self._lines)
+
+        def split(self, sep):
+            # the text is given as its lines: splitting at the line feed gives them back
+            if sep != '\n':
+                raise EngineEscape('source.split(%r)' % (sep,))
+            return list(self._lines) or ['']
 
     for nlines, ln in ((1, 1), (3, 2), (3, 3), (2, 3), (0, 1)):
         def body(nlines=nlines, ln=ln):
@@ -200,7 +206,7 @@ def source_init_mark(run, twin=None):
             assume(col >= 0)
             if tgt is not None:
                 assume(col <= tgt.n())
-            o = m.Source.__new__(m.Source)
+            o = loader.bare_instance(m.Source)
             holder['o'] = o
             f(o, SrcText(lines), 'f.py', (ln, SInt(col) if tgt is not None else 0))
             return o
@@ -230,3 +236,17 @@ def source_init_mark(run, twin=None):
             prove('%s-cursor-line' % lab, ce if ce is not None else False,
                   clause='cursor line == line[:col] ++ MARK ++ line[col:]', path=p)
         core.explore(body, on_path)
+
+    def ground(path):
+        # the lines are the ones the parser counts: only the line feed ends a line
+        for label, text, pos in (('form-feed', 'x = "a\x0cb"\nx.up', (2, 4)), ('unicode-line-separator', 'x = "a\u2028b"\nx.up', (2, 4)),
+                                 ('next-line-char', 'x = "a\x85b"\ny = 1', (2, 1)), ('crlf', 'a = 1\r\nb = a', (2, 5)),
+                                 ('vertical-tab-and-fs', 'x = "a\x0bb\x1cc"\nx', (2, 1)), ('trailing-newline-kept', 'a = 1\n', (1, 1))):
+            src = m.Source(text, 'f.py', pos)
+            lines = text.split('\n')
+            ln, col = pos
+            lines[ln - 1] = lines[ln - 1][:col] + MARK + lines[ln - 1][col:]
+            want = '\n'.join(lines)
+            prove('%s-only-the-line-feed-ends-a-line' % label, src.source == want and src.lines == lines,
+                  clause='the marked text is the original text with the mark inserted at line %d column %d as the parser counts lines' % pos, path=path)
+    core.explore(lambda: None, lambda p, out: ground(p))
